@@ -51,7 +51,10 @@ def run(tier, scratch, t0, replay=None):
             res.inconclusive.append("magic of %s: %s" % (K.vstr(v), err))
             continue
         interps.append(K.read_jsonl(tf)[0])
-    hosts = [K.MAIN_HOST] if tier == "quick" else sorted(K.available_hosts())
+    # the tables are built at import by code that may behave differently on an older host: oldest, main and newest host
+    # on every run, all hosts in the thorough tier
+    av = sorted(K.available_hosts())
+    hosts = sorted(set([K.MAIN_HOST, av[0], av[-1]])) if tier == "quick" else av
     args = {"registry": reg, "final_magic": final, "release_overrides": overrides, "interpreters": interps,
             "workdir": scratch.root}
     first = None
